@@ -1645,6 +1645,19 @@ func (mgr *Manager) convertStreamJob(allConverters []*converters.CachedConverter
 	}
 }
 
+// invalidateDataTags marks streams as pending on all tags that use a data
+// filter, their result depends on the outputs of the converters.
+func (mgr *Manager) invalidateDataTags(streams bitmask.LongBitmask) {
+	for _, tag := range mgr.tags {
+		if tag.features.MainFeatures&query.FeatureFilterData == 0 && tag.features.SubQueryFeatures&query.FeatureFilterData == 0 {
+			continue
+		}
+		tag.Uncertain = tag.Uncertain.OrCopy(streams)
+	}
+	mgr.updatedStreamsDuringTaggingJob.Or(streams)
+	mgr.inheritTagUncertainty()
+}
+
 func (mgr *Manager) invalidateConverters(updatedStreams *bitmask.LongBitmask) {
 	for _, converter := range mgr.converters {
 		invalidatedStreams := converter.InvalidateChangedStreams(updatedStreams)
@@ -2649,14 +2662,22 @@ func (c StreamContext) Data(converterName string) ([]index.Data, error) {
 	data, _, _, wasCached, err := converter.Data(c.Stream(), true)
 	// only send event if the data wasn't cached before
 	if err == nil && !wasCached {
+		streamID := c.Stream().ID()
 		c.v.mgr.jobs <- func() {
-			converter, ok := c.v.mgr.converters[converterName]
-			if ok {
-				c.v.mgr.event(Event{
-					Type:      "converterCompleted",
-					Converter: converter.Statistics(),
-				})
+			mgr := c.v.mgr
+			converter, ok := mgr.converters[converterName]
+			if !ok {
+				return
 			}
+			mgr.event(Event{
+				Type:      "converterCompleted",
+				Converter: converter.Statistics(),
+			})
+			// tags with data filters could match on the converted data now
+			streams := bitmask.LongBitmask{}
+			streams.Set(uint(streamID))
+			mgr.invalidateDataTags(streams)
+			mgr.startTaggingJobIfNeeded()
 		}
 	}
 	return data, err
